@@ -396,6 +396,16 @@ def draw_chunks(draw, st, shape, many=False):
         s1 = max(int(s), 1)
         c = draw(st.sampled_from([1, 1, 1, 2, s1] if many else [1, 2, 3, s1, (s1 + 1) // 2, 4, 5]))
         out.append(max(1, min(c, s1)))
+    # bound the number of blocks (tasks): enlarge the smallest chunks until <= cap blocks
+    cap = 96 if many else 48
+
+    def nblocks():
+        return int(np.prod([-(-max(int(s), 1) // c) for s, c in zip(shape, out)])) if out else 1
+
+    while nblocks() > cap:
+        cands = [i for i, (s, c) in enumerate(zip(shape, out)) if c < max(int(s), 1)]
+        i = min(cands, key=lambda j: out[j])
+        out[i] = min(max(int(shape[i]), 1), out[i] * 2)
     return out
 
 
